@@ -6,6 +6,7 @@ import ipaddress
 import os
 import pathlib
 import re
+import threading
 import types
 import typing
 import uuid
@@ -107,6 +108,19 @@ __all__ = ["UnpackerRegistry", "SubtypeUnpackerBuilder"]
 
 UnpackerRegistry = Registry()
 register = UnpackerRegistry.register
+
+# (holder id, method name) of nested dataclass methods being built by this
+# thread: mutually recursive classes reach each other again before the first
+# build has finished
+_in_progress = threading.local()
+
+
+def _methods_in_progress() -> set:
+    try:
+        return _in_progress.keys
+    except AttributeError:
+        _in_progress.keys = set()
+        return _in_progress.keys
 
 
 class AbstractUnpackerBuilder(AbstractMethodBuilder, ABC):
@@ -732,7 +746,7 @@ def unpack_dataclass(spec: ValueSpec) -> Optional[Expression]:
             # a dialect-specific build goes to the per-dialect cache, so the
             # default method of the class is not the one being built now
             or spec.builder.dialect is not None
-        ):
+        ) and (id(method_loc), method_name) not in _methods_in_progress():
             builder = spec.builder.__class__(
                 spec.origin_type,
                 type_args,
@@ -744,7 +758,11 @@ def unpack_dataclass(spec: ValueSpec) -> Optional[Expression]:
                     spec.attrs_registry if not spec.builder.is_nailed else None
                 ),
             )
-            builder.add_unpack_method()
+            _methods_in_progress().add((id(method_loc), method_name))
+            try:
+                builder.add_unpack_method()
+            finally:
+                _methods_in_progress().discard((id(method_loc), method_name))
         method_args = ", ".join(
             filter(
                 None,
